@@ -14,9 +14,22 @@ import (
 )
 
 type PropConfig struct {
-	Packages []string `json:"packages"`
-	Level    string   `json:"level"`
-	Notes    []string `json:"not_decided"`
+	Packages []string       `json:"packages"`
+	Level    string         `json:"level"`
+	Notes    []string       `json:"not_decided"`
+	Bounded  []BoundedCheck `json:"bounded"`
+}
+
+// BoundedCheck: a test of the real code that stands in for a trusted contract of a
+// function outside the verifier's reach.  Labelled bounded, never counted as proved.
+type BoundedCheck struct {
+	Name      string `json:"name"`
+	Pkg       string `json:"pkg"`
+	File      string `json:"file"` // under /verif/bounded
+	Test      string `json:"test"`
+	Bound     string `json:"bound"`
+	StandsFor string `json:"stands_for"`
+	Race      bool   `json:"race"`
 }
 
 type KnownFinding struct {
@@ -317,6 +330,22 @@ func runCheck(repo, vdir, prop, tier string, verbose, updateBaseline, writeEvide
 		os.WriteFile(filepath.Join(vdir, "obligations.baseline.json"), append(b, '\n'), 0o644)
 	}
 
+	var boundedReport []any
+	for _, bc := range pc.Bounded {
+		out, failed, built := goTestOverlay(repo, bc.Pkg, filepath.Join(vdir, "bounded", bc.File), bc.Test, bc.Race)
+		status := "held"
+		if !built {
+			status = "did-not-build"
+			genErrors = append(genErrors, "bounded check "+bc.Name+" did not build or run: "+tail(out, 300))
+		} else if failed {
+			status = "violated"
+			os.MkdirAll(replayDir, 0o755)
+			path := filepath.Join(replayDir, "bounded_"+sanitize(bc.Name)+".replay.txt")
+			os.WriteFile(path, []byte(fmt.Sprintf("bounded check %s (stands for: %s; bound: %s)\ntest %s in ./%s fails on the real code:\n%s\n", bc.Name, bc.StandsFor, bc.Bound, bc.Test, bc.Pkg, tail(out, 3000))), 0o644)
+			violations = append(violations, fmt.Sprintf("VIOLATION property=%s replay=%s", prop, path))
+		}
+		boundedReport = append(boundedReport, map[string]any{"name": bc.Name, "level": "bounded", "bound": bc.Bound, "stands_for": bc.StandsFor, "test": bc.Test, "status": status})
+	}
 	for _, l := range knownPrinted {
 		fmt.Println(l)
 	}
@@ -389,6 +418,7 @@ func runCheck(repo, vdir, prop, tier string, verbose, updateBaseline, writeEvide
 				"samples":               samples,
 				"abstractions_exercised": abstr,
 				"vacuity_guards":        reach,
+				"bounded_checks":        boundedReport,
 				"known_findings_printed": knownPrinted,
 				"spec_functions_used":   sortedKeys(x.UsedSpecs),
 				"not_decided":           pc.Notes,
